@@ -1,6 +1,8 @@
 """FAST Neuron Serial Communicator."""
 # mpf/platforms/fast/communicators/net_neuron.py
 
+import re
+
 from packaging import version
 
 from mpf.core.utility_functions import Util
@@ -11,6 +13,9 @@ from mpf.platforms.fast.fast_driver import FastDriverConfig
 from mpf.platforms.fast.fast_switch import FASTSwitch
 from mpf.platforms.fast.fast_driver import FASTDriver
 from mpf.platforms.fast import fast_defines
+
+
+SWITCH_ID_PATTERN = re.compile(r'[0-9A-Fa-f]{2}')
 
 
 class FastNetNeuronCommunicator(FastSerialCommunicator):
@@ -306,6 +311,13 @@ class FastNetNeuronCommunicator(FastSerialCommunicator):
 
         self.platform.new_switch_data.set()  # Signal that we have new switch data
 
+    def _switch_number_from_msg(self, msg):
+        """Return the switch number of a switch event or None if it is not exactly two hex digits."""
+        if not SWITCH_ID_PATTERN.fullmatch(msg):
+            self.log.warning("Ignoring malformed switch message with switch id '%s'", msg)
+            return None
+        return int(msg, 16)
+
     def _process_switch_open(self, msg):
         """Process local switch open.
 
@@ -314,8 +326,11 @@ class FastNetNeuronCommunicator(FastSerialCommunicator):
             msg: switch number
             remote_processor: Processor which sent the message.
         """
+        num = self._switch_number_from_msg(msg)
+        if num is None:
+            return
         self.machine.switch_controller.process_switch_by_num(state=0,
-                                                             num=int(msg, 16),
+                                                             num=num,
                                                              platform=self.platform,
                                                              logical=True)
 
@@ -327,8 +342,11 @@ class FastNetNeuronCommunicator(FastSerialCommunicator):
             msg: switch number
             remote_processor: Processor which sent the message.
         """
+        num = self._switch_number_from_msg(msg)
+        if num is None:
+            return
         self.machine.switch_controller.process_switch_by_num(state=1,
-                                                             num=int(msg, 16),
+                                                             num=num,
                                                              platform=self.platform,
                                                              logical=True)
 
